@@ -324,6 +324,83 @@ theorem sql_SubscriptSpecifierKeyword (ip : Nat → Bool) (kp rp : Nat) (kw : By
   rw [nSubscriptSpecifierKeyword, sqlOf_mk row_SubscriptSpecifierKeyword.1 row_SubscriptSpecifierKeyword.2]
   sql_eval [he]
 
+/-! ## CASE and IF -/
+
+theorem prec_CaseExpr (sc : List (String × Scalar)) : ST.exprPrecOf "CaseExpr" sc = some 0 :=
+  exprPrecOf_plain (by decide +kernel) sc
+theorem prec_IfExpr (sc : List (String × Scalar)) : ST.exprPrecOf "IfExpr" sc = some 0 :=
+  exprPrecOf_plain (by decide +kernel) sc
+
+theorem row_CaseWhen :
+    ST.bodies.lookup "CaseWhen" = some (.ret (.cat (.cat (.cat (.lit "WHEN ") (.child "Cond")) (.lit " THEN ")) (.child "Then"))) ∧
+    ST.fieldsOf "CaseWhen" = [⟨"When", .pos, "token.Pos"⟩, ⟨"Cond", .node, "Expr"⟩, ⟨"Then", .node, "Expr"⟩] := by
+  decide +kernel
+
+theorem sql_CaseWhen (ip : Nat → Bool) (wp : Nat) (c t : Node) (sc st : Bytes) (hc : sqlOf ST ip c = some sc)
+    (ht : sqlOf ST ip t = some st) :
+    sqlOf ST ip (nCaseWhen wp c t) = some (B "WHEN " ++ sc ++ B " THEN " ++ st) := by
+  rw [nCaseWhen, sqlOf_mk row_CaseWhen.1 row_CaseWhen.2]
+  sql_eval [hc, ht]
+
+theorem row_CaseElse :
+    ST.bodies.lookup "CaseElse" = some (.ret (.cat (.lit "ELSE ") (.child "Expr"))) ∧
+    ST.fieldsOf "CaseElse" = [⟨"Else", .pos, "token.Pos"⟩, ⟨"Expr", .node, "Expr"⟩] := by
+  decide +kernel
+
+theorem sql_CaseElse (ip : Nat → Bool) (p : Nat) (e : Node) (s : Bytes) (he : sqlOf ST ip e = some s) :
+    sqlOf ST ip (nCaseElse p e) = some (B "ELSE " ++ s) := by
+  rw [nCaseElse, sqlOf_mk row_CaseElse.1 row_CaseElse.2]
+  sql_eval [he]
+
+theorem row_IfExpr :
+    ST.bodies.lookup "IfExpr" = some (.ret (.cat (.cat (.cat (.cat (.cat (.cat (.lit "IF(") (.child "Expr")) (.lit ", ")) (.child "TrueResult")) (.lit ", ")) (.child "ElseResult")) (.lit ")"))) ∧
+    ST.fieldsOf "IfExpr" = [⟨"If", .pos, "token.Pos"⟩, ⟨"Rparen", .pos, "token.Pos"⟩, ⟨"Expr", .node, "Expr"⟩, ⟨"TrueResult", .node, "Expr"⟩, ⟨"ElseResult", .node, "Expr"⟩] := by
+  decide +kernel
+
+theorem sql_IfExpr (ip : Nat → Bool) (ifp rp : Nat) (c t e : Node) (sc st se : Bytes) (hc : sqlOf ST ip c = some sc)
+    (ht : sqlOf ST ip t = some st) (he : sqlOf ST ip e = some se) :
+    sqlOf ST ip (nIfExpr ifp rp c t e) = some (B "IF(" ++ sc ++ B ", " ++ st ++ B ", " ++ se ++ B ")") := by
+  rw [nIfExpr, sqlOf_mk row_IfExpr.1 row_IfExpr.2]
+  sql_eval [hc, ht, he]
+
+theorem row_CaseExpr :
+    ST.bodies.lookup "CaseExpr" = some (.ret (.cat (.cat (.cat (.cat (.cat (.lit "CASE ") (.sqlOpt (.lit "") "Expr" (.lit " "))) (.sqlJoin "Whens" (.lit " "))) (.lit " ")) (.sqlOpt (.lit "") "Else" (.lit " "))) (.lit "END"))) ∧
+    ST.fieldsOf "CaseExpr" = [⟨"Case", .pos, "token.Pos"⟩, ⟨"EndPos", .pos, "token.Pos"⟩, ⟨"Expr", .node, "Expr"⟩, ⟨"Whens", .nodes, "[]*CaseWhen"⟩, ⟨"Else", .node, "*CaseElse"⟩] := by
+  decide +kernel
+
+/-- the text `sqlOpt("", node, " ")` contributes -/
+def optS : Option Bytes → Bytes
+  | none => []
+  | some s => s ++ B " "
+
+theorem sql_CaseExpr (ip : Nat → Bool) (cp ep : Nat) (oE oL : Option Node) (whens : List Node) (sE sL : Option Bytes)
+    (ss : List Bytes) (hE : oE.map (sqlOf ST ip) = sE.map some) (hs : whens.map (sqlOf ST ip) = ss.map some)
+    (hL : oL.map (sqlOf ST ip) = sL.map some) :
+    sqlOf ST ip (nCaseExpr cp ep (appKids (optKid "Expr" oE) (appKids (sliceKids "Whens" 0 whens) (optKid "Else" oL)))) =
+      some (B "CASE " ++ optS sE ++ joinSql (B " ") ss ++ B " " ++ optS sL ++ B "END") := by
+  rw [nCaseExpr, sqlOf_mk row_CaseExpr.1 row_CaseExpr.2]
+  cases oE <;> cases oL <;> cases sE <;> cases sL <;> simp at hE hL <;>
+    sql_eval [appKids, optKid, sqlKids_app, SqlCtx.slice, List.filter_append, sqlKids_slice_filter,
+      sqlKids_slice_contiguous, sqlKids_slice_sql, hs, allSome_map_some, List.find?_append, sqlKids_slice_single, sqlKids_slice_single',
+      hE, hL, optS, show B "" = [] from rfl]
+/-! ## array literals -/
+
+theorem prec_ArrayLiteral (sc : List (String × Scalar)) : ST.exprPrecOf "ArrayLiteral" sc = some 0 :=
+  exprPrecOf_plain (by decide +kernel) sc
+
+theorem row_ArrayLiteral :
+    ST.bodies.lookup "ArrayLiteral" = some (.ret (.cat (.cat (.cat (.cat (.strOpt (.not (.posInvalid "Array")) (.lit "ARRAY")) (.sqlOpt (.lit "<") "Type" (.lit ">"))) (.lit "[")) (.sqlJoin "Values" (.lit ", "))) (.lit "]"))) ∧
+    ST.fieldsOf "ArrayLiteral" = [⟨"Array", .pos, "token.Pos"⟩, ⟨"Lbrack", .pos, "token.Pos"⟩, ⟨"Rbrack", .pos, "token.Pos"⟩, ⟨"Type", .node, "Type"⟩, ⟨"Values", .nodes, "[]Expr"⟩] := by
+  decide +kernel
+
+/-- `Array` invalid (no `ARRAY`), `Type` nil (no `<…>`) -/
+theorem sql_ArrayLiteral (ip : Nat → Bool) (lb rb : Nat) (nodes : List Node) (ss : List Bytes)
+    (hs : nodes.map (sqlOf ST ip) = ss.map some) :
+    sqlOf ST ip (nArrayLiteral lb rb (sliceKids "Values" 0 nodes)) = some (B "[" ++ joinSql (B ", ") ss ++ B "]") := by
+  rw [nArrayLiteral, sqlOf_mk row_ArrayLiteral.1 row_ArrayLiteral.2]
+  sql_eval [SqlCtx.slice, SqlCtx.posF, sqlKids_slice_filter, sqlKids_slice_contiguous, sqlKids_slice_sql, hs, allSome_map_some,
+    sqlKids_slice_single, sqlKids_slice_single', show B "" = [] from rfl]
+
 /-! ## types -/
 
 theorem row_SimpleType :
@@ -383,5 +460,22 @@ theorem sql_StructField_none (ip : Nat → Bool) (t : Node) (st : Bytes) (ht : s
     sqlOf ST ip (nStructField none t) = some st := by
   rw [nStructField, sqlOf_mk row_StructField.1 row_StructField.2]
   sql_eval [ht]
+
+/-! ## CAST -/
+
+theorem prec_CastExpr (sc : List (String × Scalar)) : ST.exprPrecOf "CastExpr" sc = some 0 :=
+  exprPrecOf_plain (by decide +kernel) sc
+
+theorem row_CastExpr :
+    ST.bodies.lookup "CastExpr" = some (.ret (.cat (.cat (.cat (.cat (.cat (.strOpt (.bool "Safe") (.lit "SAFE_")) (.lit "CAST(")) (.child "Expr")) (.lit " AS ")) (.child "Type")) (.lit ")"))) ∧
+    ST.fieldsOf "CastExpr" = [⟨"Cast", .pos, "token.Pos"⟩, ⟨"Rparen", .pos, "token.Pos"⟩, ⟨"Safe", .bool, "bool"⟩, ⟨"Expr", .node, "Expr"⟩, ⟨"Type", .node, "Type"⟩] := by
+  decide +kernel
+
+theorem sql_CastExpr (ip : Nat → Bool) (cp rp : Nat) (safe : Bool) (e t : Node) (se st : Bytes)
+    (he : sqlOf ST ip e = some se) (ht : sqlOf ST ip t = some st) :
+    sqlOf ST ip (nCastExpr cp rp safe e t) =
+      some ((if safe then B "SAFE_" else []) ++ B "CAST(" ++ se ++ B " AS " ++ st ++ B ")") := by
+  rw [nCastExpr, sqlOf_mk row_CastExpr.1 row_CastExpr.2]
+  sql_eval [he, ht]
 
 end MF.Bridge
